@@ -342,3 +342,32 @@ func VerifH_ReaderMemoryBound() {
 		vrt.Cover("membound-grew")
 	}
 }
+
+// VerifH_ReaderOversizeTail: a complete small frame followed by a truncated frame that
+// announces a long payload; the buffered part of that incomplete frame is just below, at
+// or above the allowed maximum plus the frame overhead. Delivered in one read, byte by
+// byte or with one symbolic cut, then the transport's error: in every chunking the result
+// is the packet, then "data overflow" exactly when the incomplete frame alone exceeds the
+// bound, otherwise the transport's error.
+func VerifH_ReaderOversizeTail() {
+	max := vrt.Int("max")
+	vrt.Assume(max >= 1 && max <= 2)
+	stream := AppendFrame(nil, Frame{ID: ID{Stream: 1, Message: 1}, Kind: KindMessage, Done: true, Data: []byte{vrt.U8("payload")}})
+	hdr := AppendFrame(nil, Frame{ID: ID{Stream: 1, Message: 2}, Kind: KindMessage, Done: true, Data: make([]byte, 120)})
+	hdrLen := len(hdr) - 120
+	extra := []int{-1, 0, 1, 12}[vrt.Choice("tail", 4)]
+	tail := max + maxFrameOverhead + extra // bytes of the incomplete frame that are delivered
+	stream = append(stream, hdr[:tail]...)
+	vrt.Assert(tail > hdrLen && tail < len(hdr), "the second frame is truncated inside its payload")
+	sr := &scriptReader{data: stream, finalErr: io.ErrUnexpectedEOF}
+	switch vrt.Choice("delivery", 3) {
+	case 0: // everything in one read
+	case 1:
+		sr.bytewise = true
+	case 2:
+		sr.cuts = 1
+	}
+	sr.errWithData = vrt.Bool("errWithData")
+	compareWithReference(stream, max, sr, 3)
+	vrt.Cover("oversize-tail-end")
+}
